@@ -220,18 +220,6 @@ theorem childOK_congr {g g' : G} (hn : g'.n = g.n) (hk : g'.kind = g.kind) (p : 
 
 /-! ### `relink`: detach from the old parent, point to the new one -/
 
-theorem relink_par (g : G) (p : Nat) (s : Slot) (v c : Nat) :
-    (relink g p s v).par c = if c = v then some p else g.par c := by
-  unfold relink
-  simp only [setPar_par]
-  split
-  · rfl
-  · rename_i hc
-    unfold detachOld
-    split
-    · rw [detach_par]; simp [hc]
-    · rfl
-
 theorem relink_kids_of_ne {g : G} {p : Nat} {s : Slot} {v : Nat} (p' : Nat) (s' : Slot)
     (h : g.par v ≠ some p') : (relink g p s v).kids p' s' = g.kids p' s' := by
   unfold relink
@@ -739,21 +727,6 @@ theorem ForestInv.setName {g : G} (h : ForestInv g) (v nm : Nat) : ForestInv (se
 theorem ForestInv.setPayload {g : G} (h : ForestInv g) (v : Nat) (pl : Payload) : ForestInv (setPayload g v pl) :=
   forestInv_of_core_eq (setPayload_core g v pl) ⟨h.mem_iff, h.nodup, h.kind_ok, h.alloc⟩
 
-theorem foldl_bindE_inv {α : Type} (I : G → Prop) (body : G → α → Except Exc G) (l : List α)
-    (hstep : ∀ a ∈ l, ∀ g g', I g → body g a = .ok g' → I g') :
-    ∀ (acc : Except Exc G) (g' : G), (∀ g, acc = .ok g → I g) →
-      l.foldl (fun acc a => bindE acc fun g => body g a) acc = .ok g' → I g' := by
-  induction l with
-  | nil => intro acc g' hacc h; exact hacc g' h
-  | cons a as ih =>
-    intro acc g' hacc h
-    simp only [List.foldl_cons] at h
-    refine ih (fun b hb => hstep b (List.mem_cons_of_mem _ hb)) _ g' ?_ h
-    intro g1 hg1
-    cases acc with
-    | error e => simp [bindE] at hg1
-    | ok g0 => exact hstep a List.mem_cons_self g0 g1 (hacc g0 rfl) hg1
-
 /-- the set-wrapper and list-wrapper operations (everything except the constructors) -/
 theorem ForestInv.step_noalloc {g g' : G} {op : Op} (h : ForestInv g) (hop : OpOK g op)
     (hs : step g op = .ok g')
@@ -852,15 +825,10 @@ theorem forestInv_step_mkSym {g g' : G} {u nm : Nat} {pl : Payload} {parent : Op
   · cases hs
     exact h2
 
-theorem bindE_ok {x : Except Exc G} {f : G → Except Exc G} {g' : G} (h : bindE x f = .ok g') :
-    ∃ g2, x = .ok g2 ∧ f g2 = .ok g' := by
-  cases x with
-  | error e => simp [bindE] at h
-  | ok g2 => exact ⟨g2, rfl, h⟩
-
-theorem forestInv_step_mk {g g' : G} {k : Kind} {u : Nat} {kids : List (Slot × List Nat)} {parent : Option Nat}
+/-- the constructor of a non-IR node: the result is consistent and every child argument points to the new node -/
+theorem step_mk_spec {g g' : G} {k : Kind} {u : Nat} {kids : List (Slot × List Nat)} {parent : Option Nat}
     (h : ForestInv g) (hop : OpOK g (.mk k u kids parent)) (hs : step g (.mk k u kids parent) = .ok g') :
-    ForestInv g' := by
+    ForestInv g' ∧ ∀ sv ∈ kids, ∀ x ∈ sv.2, g'.par x = some g.n := by
   obtain ⟨hk1, hk2, hkids, hpar⟩ := hop
   simp only [step] at hs
   rw [if_neg (by simp [hk1, hk2])] at hs
@@ -872,43 +840,77 @@ theorem forestInv_step_mk {g g' : G} {k : Kind} {u : Nat} {kids : List (Slot × 
   simp only at ha1 ha2 hs
   subst ha1 ha2
   obtain ⟨g2, hfold, hs'⟩ := bindE_ok hs
-  ·
-    have hI : ForestInv g2 ∧ Stable (Gtirb.Forest.alloc g k u).1 g2 := by
-      refine foldl_bindE_inv (fun g' => ForestInv g' ∧ Stable (Gtirb.Forest.alloc g k u).1 g')
-        (fun g0 (x : Slot × List Nat) => if x.1 = .blocks then blkUpdate g0 g.n x.2
-               else foldE (fun g0 y => setAdd g0 g.n x.1 y) x.2 g0) kids ?_ _ g2 ?_ hfold
-      · intro sv hsv ga gb hga hbody
-        have hch : ∀ y ∈ sv.2, ChildOK ga g.n sv.1 y := by
-          intro y hy
-          have := hkids sv hsv y hy
-          rw [childOK_stable hga.2]
-          refine ⟨Nat.lt_succ_self _, Nat.lt_succ_of_lt this.1, ?_, ?_⟩
-          · simp [Nat.ne_of_lt this.1, this.2.1]
-          · simp [Nat.ne_of_lt this.1, this.2.2]
-        split at hbody
-        · rename_i hb
-          rw [hb] at hch
-          exact ⟨hga.1.blkUpdate hch hbody, hga.2.trans (blkUpdate_stable hbody)⟩
-        · have := foldE_forestInv (g := ga) (fun g1 x g2 hx h1 hst h2 =>
-            ⟨h1.setAdd ((childOK_stable hst g.n sv.1 x).2 (hch x hx)) h2, setAdd_stable h2⟩) hga.1 hbody
-          exact ⟨this.1, hga.2.trans this.2⟩
-      · intro g0 hg0
-        cases hg0
-        exact ⟨hg1, Stable.refl _⟩
-    split at hs'
-    · rename_i p
-      refine hI.1.setParent ?_ hs'
+  have hI : ∃ done : List (Slot × List Nat), (∀ a, a ∈ kids ∨ a ∈ [] → a ∈ done) ∧
+      (ForestInv g2 ∧ Stable (Gtirb.Forest.alloc g k u).1 g2 ∧ ∀ sv ∈ done, ∀ x ∈ sv.2, g2.par x = some g.n) := by
+    refine foldl_bindE_inv_done
+      (fun (done : List (Slot × List Nat)) g' => ForestInv g' ∧ Stable (Gtirb.Forest.alloc g k u).1 g' ∧
+        ∀ sv ∈ done, ∀ x ∈ sv.2, g'.par x = some g.n)
+      (fun g0 (x : Slot × List Nat) => if x.1 = .blocks then blkUpdate g0 g.n x.2
+             else foldE (fun g0 y => setAdd g0 g.n x.1 y) x.2 g0) kids ?_ [] _ g2 ?_ hfold
+    · intro done sv hsv ga gb hga hbody
+      have hch : ∀ y ∈ sv.2, ChildOK ga g.n sv.1 y := by
+        intro y hy
+        have := hkids sv hsv y hy
+        rw [childOK_stable hga.2.1]
+        refine ⟨Nat.lt_succ_self _, Nat.lt_succ_of_lt this.1, ?_, ?_⟩
+        · simp [Nat.ne_of_lt this.1, this.2.1]
+        · simp [Nat.ne_of_lt this.1, this.2.2]
+      split at hbody
+      · rename_i hb
+        rw [hb] at hch
+        refine ⟨hga.1.blkUpdate hch hbody, hga.2.1.trans (blkUpdate_stable hbody), ?_⟩
+        intro sv' hsv' x hx
+        rw [blkUpdate_par hbody]
+        split
+        · rfl
+        · rename_i hn
+          rcases List.mem_cons.1 hsv' with rfl | hsv'
+          · rw [mem_blkNew] at hn
+            have : x ∈ ga.kids g.n .blocks := by
+              apply Classical.byContradiction
+              intro hh
+              exact hn ⟨hx, hh⟩
+            exact ((hga.1.mem_iff x g.n .blocks).1 this).1
+          · exact hga.2.2 sv' hsv' x hx
+      · have := foldE_forestInv (g := ga) (fun g1 x g2 hx h1 hst h2 =>
+          ⟨h1.setAdd ((childOK_stable hst g.n sv.1 x).2 (hch x hx)) h2, setAdd_stable h2⟩) hga.1 hbody
+        refine ⟨this.1, hga.2.1.trans this.2, ?_⟩
+        intro sv' hsv' x hx
+        rw [foldE_setAdd_par _ hbody]
+        split
+        · rfl
+        · rename_i hn
+          rcases List.mem_cons.1 hsv' with rfl | hsv'
+          · exact absurd hx hn
+          · exact hga.2.2 sv' hsv' x hx
+    · intro g0 hg0
+      cases hg0
+      exact ⟨hg1, Stable.refl _, fun _ h => absurd h List.not_mem_nil⟩
+  obtain ⟨done, hdone, hI1, hI2, hI3⟩ := hI
+  have hpars : ∀ sv ∈ kids, ∀ x ∈ sv.2, g2.par x = some g.n :=
+    fun sv hsv x hx => hI3 sv (hdone sv (Or.inl hsv)) x hx
+  split at hs'
+  · rename_i p
+    constructor
+    · refine hI1.setParent ?_ hs'
       have := hpar p rfl
       show g.n < g2.n ∧ g2.kind g.n ≠ .ir ∧ ∀ q, some p = some q → q < g2.n ∧ parentKind (g2.kind g.n) = some (g2.kind q)
-      rw [hI.2.n, hI.2.kind]
+      rw [hI2.n, hI2.kind]
       refine ⟨Nat.lt_succ_self _, ?_, ?_⟩
       · simp [hk1]
       · intro q hq
         cases hq
         refine ⟨Nat.lt_succ_of_lt this.1, ?_⟩
         simp [Nat.ne_of_lt this.1, this.2]
-    · cases hs'
-      exact hI.1
+    · intro sv hsv x hx
+      rw [setParent_par_ne hs' (Nat.ne_of_lt (hkids sv hsv x hx).1)]
+      exact hpars sv hsv x hx
+  · cases hs'
+    exact ⟨hI1, hpars⟩
+
+theorem forestInv_step_mk {g g' : G} {k : Kind} {u : Nat} {kids : List (Slot × List Nat)} {parent : Option Nat}
+    (h : ForestInv g) (hop : OpOK g (.mk k u kids parent)) (hs : step g (.mk k u kids parent) = .ok g') :
+    ForestInv g' := (step_mk_spec h hop hs).1
 
 theorem forestInv_step {g g' : G} {op : Op} (h : ForestInv g) (hop : OpOK g op)
     (hs : step g op = .ok g') : ForestInv g' := by
@@ -917,5 +919,69 @@ theorem forestInv_step {g g' : G} {op : Op} (h : ForestInv g) (hop : OpOK g op)
   | mk k u kids parent => exact forestInv_step_mk h hop hs
   | mkSym u nm pl parent => exact forestInv_step_mkSym h hop hs
   | _ => exact h.step_noalloc hop hs trivial
+
+/-! ### where the moved node points afterwards -/
+
+theorem nodeSetAdd_par_self {g g' : G} {p : Nat} {s : Slot} {v : Nat} (h : ForestInv g) (hc : ChildOK g p s v)
+    (hs : nodeSetAdd g p s v = .ok g') : g'.par v = some p := by
+  unfold nodeSetAdd at hs
+  split at hs
+  · rename_i hb
+    subst hb
+    rw [blkUpdate_par hs]
+    split
+    · rfl
+    · rename_i hn
+      rw [mem_blkNew] at hn
+      have : v ∈ g.kids p .blocks := by
+        apply Classical.byContradiction
+        intro hh
+        exact hn ⟨List.mem_singleton.2 rfl, hh⟩
+      exact ((h.mem_iff v p .blocks).1 this).1
+  · rw [setAdd_par hs]; simp
+
+theorem setParent_par_self {g g' : G} {c p : Nat} (h : ForestInv g) (hop : OpOK g (.setParent c (some p)))
+    (hs : setParent g c (some p) = .ok g') : g'.par c = some p := by
+  obtain ⟨hc, _, hp⟩ := hop
+  unfold setParent at hs
+  split at hs
+  · cases hs
+  · rename_i s hslot
+    split at hs
+    · cases hs
+    · rename_i g1 h1
+      have e1 : ForestInv g1 ∧ Stable g g1 := by
+        split at h1
+        · split at h1
+          · exact ⟨h.modListRemove h1, modListRemove_stable h1⟩
+          · exact ⟨h.setDiscard h1, setDiscard_stable h1⟩
+        · cases h1; exact ⟨h, Stable.refl _⟩
+      have hc1 : ChildOK g1 p s c :=
+        (childOK_stable e1.2 p s c).2 ⟨(hp p rfl).1, hc, hslot, (hp p rfl).2⟩
+      dsimp only at hs
+      split at hs
+      · rw [modAppend_par hs]; simp
+      · exact nodeSetAdd_par_self e1.1 hc1 hs
+
+theorem setParent_none_par_self {g g' : G} {c : Nat} (h : ForestInv g) (hs : setParent g c none = .ok g') :
+    g'.par c = none := by
+  unfold setParent at hs
+  split at hs
+  · cases hs
+  · rename_i s hslot
+    split at hs
+    · cases hs
+    · rename_i g1 h1
+      dsimp only at hs
+      cases hs
+      split at h1
+      · rename_i q hq
+        split at h1
+        · rw [modListRemove_par h1]; simp
+        · rw [setDiscard_par h1]
+          simp [h.mem_of_par hq hslot]
+      · rename_i hq
+        cases h1
+        exact hq
 
 end Gtirb.Forest
